@@ -303,3 +303,106 @@ func siteTags(c *core.Ctx, r *Roles, fn *ssa.Function) []string {
 	}
 	return out
 }
+
+type stiState struct {
+	active   bool
+	stored   bool
+	inserted bool
+	closed   uint8
+	errs     [4]an.ErrVal
+}
+
+func init() {
+	register(&Rule{ID: "TS-STORED-THEN-INDEXED", Floor: 4,
+		Doc: "the converse of TS-CONTENT-FIRST: once the blob created for a computed digest is stored (Close ok-edge) or reported as already existing, every path reaches the index insert naming that digest before the function acknowledges (2xx / `return nil`) or creates the next blob — ‘already stored’ must not be mistaken for ‘already indexed’",
+		Run: func(c *core.Ctx) {
+			r := requireRoles(c)
+			if r == nil {
+				return
+			}
+			count := map[string]int{}
+			for _, hs := range hashSites(c) {
+				if hs.create == nil || len(hs.inserts) == 0 {
+					continue
+				}
+				name := kn(c.P.FuncName(hs.fn))
+				count[name]++
+				key := fmt.Sprintf("stored-then-indexed:%s#%d", name, count[name])
+				c.SetTags(siteTags(c, r, hs.fn)...)
+				tracked := map[ssa.Value]int{}
+				if ev := an.ErrResult(hs.create); ev != nil {
+					an.TrackSlots(tracked, ev, 0)
+				}
+				closeIdx := map[ssa.Instruction]int{}
+				for i, cl := range hs.closes {
+					if i >= 3 {
+						break
+					}
+					closeIdx[cl] = i + 1
+					an.TrackSlots(tracked, cl, i+1)
+				}
+				isInsert := map[ssa.Instruction]bool{}
+				for _, ins := range hs.inserts {
+					isInsert[ins] = true
+				}
+				bad := ""
+				returnsErr := hs.fn.Signature.Results().Len() > 0 && an.IsErrorType(hs.fn.Signature.Results().At(hs.fn.Signature.Results().Len()-1).Type())
+				an.Paths(an.PathSpec[stiState]{Fn: hs.fn, Init: stiState{},
+					Instr: func(s stiState, in ssa.Instruction) []stiState {
+						pending := s.active && s.stored && !s.inserted
+						if in == ssa.Instruction(hs.create.(*ssa.Call)) {
+							if pending && bad == "" {
+								bad = fmt.Sprintf("the next blob is created at %s although the previous one — stored or already existing — was not entered into the index", c.P.Pos(in.Pos()))
+							}
+							return []stiState{{active: true}}
+						}
+						if k, ok := closeIdx[in]; ok {
+							s.closed |= 1 << uint(k)
+							s.errs[k] = an.EU
+							return []stiState{s}
+						}
+						if isInsert[in] {
+							s.inserted = true
+							return []stiState{s}
+						}
+						if pending && bad == "" {
+							switch x := in.(type) {
+							case *ssa.Call:
+								if st, ok := writeHeaderStatus(x); ok && st >= 200 && st < 300 {
+									bad = fmt.Sprintf("status %d at %s is reachable although the stored blob was not entered into the index", st, c.P.Pos(x.Pos()))
+								}
+							case *ssa.Return:
+								if returnsErr && retErrNil(x) {
+									bad = fmt.Sprintf("`return nil` at %s is reachable on a path on which the blob created at %s is stored (or already existed) but the index entry naming it was not inserted: the update is reported as done while the index still lacks it", c.P.Pos(x.Pos()), c.P.Pos(hs.create.Pos()))
+								}
+							}
+						}
+						return []stiState{s}
+					},
+					Edge: func(s stiState, from *ssa.BasicBlock, succ int) (stiState, bool) {
+						if !s.active {
+							return s, true
+						}
+						vals, ok := an.TrackErrEdge(s.errs[:], tracked, r.TypesPath, "ErrBlobExists", from, succ)
+						if !ok {
+							return s, false
+						}
+						copy(s.errs[:], vals)
+						if s.errs[0] == an.EE {
+							s.stored = true
+						}
+						for k := 1; k < 4; k++ {
+							if s.closed&(1<<uint(k)) != 0 && s.errs[k] == an.EN {
+								s.stored = true
+							}
+						}
+						return s, true
+					}})
+				if bad != "" {
+					c.Fail(key, hs.create.Pos(), "%s", bad)
+				} else {
+					c.Pass(key, hs.create.Pos(), "every path on which the blob is stored or exists reaches the index insert before acknowledging")
+				}
+			}
+		}})
+}
